@@ -58,7 +58,8 @@ Section Leaves.
   Definition is_sign (t : token) : bool := match t with TAddition _ => true | _ => false end.
   Definition is_at (t : token) : bool := match t with TAt => true | _ => false end.
   Definition startb (t : token) : bool :=
-    negb (is_rparen t) && negb (is_sep SepComma t) && negb (is_sep SepSemicolon t).
+    negb (is_rparen t) && negb (is_sep SepComma t) && negb (is_sep SepSemicolon t)
+    && negb (match t with TLBracket => true | _ => false end).
 
   Definition head_spec (k : nat) (ts : list token) : Prop :=
     exists t r, ts = t :: r /\ startb t = true /\ (k <= 2 -> is_sign t = false) /\ (k <= 0 -> is_at t = false).
@@ -74,8 +75,11 @@ Section Leaves.
 
   Lemma startb_start t : startb t = true -> start_tok t.
   Proof.
-    unfold startb, start_tok. intro H. apply andb_true_iff in H as [H H3]. apply andb_true_iff in H as [H1 H2].
+    unfold startb, start_tok. intro H. apply andb_true_iff in H as [H _]. apply andb_true_iff in H as [H H3]. apply andb_true_iff in H as [H1 H2].
     repeat split; apply negb_true_iff; assumption.
+
+  Lemma startb_not_lbracket t : startb t = true -> t <> TLBracket.
+  Proof. intros H ->. discriminate H.
   Qed.
 
   Lemma head_not_sign k ts rest : k <= 2 -> head_spec k ts -> not_sign (ts ++ rest).
